@@ -726,7 +726,9 @@ def run(ck: core.Check):
     ck.exhaustive = False
     ck.rule = (
         f"all block forests with <= {maxn} blocks x 3 managers x raise/normal (args, with/decorator form, "
-        "exception class seeded-random) + seeded random histories up to 11 blocks/depth 6; "
+        "exception class seeded-random among plain / KeyError / spox's eager TypeError / KeyboardInterrupt / StopIteration / "
+        "GeneratorExit / SystemExit / RuntimeError-with-cause; a fifth of the blocks call the public setter of their own setting "
+        "at the end of the body) + seeded random histories up to 11 blocks/depth 6; "
         "non-trivial = at least 2 blocks or a raising body; distinct by (shape, managers, args, outcomes)"
     )
     ck.assumptions += [
